@@ -8,6 +8,7 @@ package litestream
 
 import (
 	"context"
+	"log/slog"
 	"time"
 
 	"github.com/benbjohnson/litestream/internal/vx"
@@ -22,6 +23,10 @@ type vxRepClient struct {
 }
 
 func (c *vxRepClient) Type() string { return "vx" }
+
+func (c *vxRepClient) SetLogger(*slog.Logger) {}
+
+func (c *vxRepClient) Init(ctx context.Context) error { return nil }
 
 func (c *vxRepClient) LTXFiles(ctx context.Context, level int, seek ltx.TXID, useMetadata bool) (ltx.FileIterator, error) {
 	var a []*ltx.FileInfo
@@ -175,6 +180,13 @@ func VxC07L0ByTime() {
 	c, nsnap := vxGenReplica(n)
 	db := vxNewRetentionDB(c)
 	db.L0Retention = 10 * time.Second
+	// The DB's cached "newest level-0 file" is whatever a running process can hold:
+	// nothing (or, equivalently for this code, the newest replicated file), or a
+	// local file that has not been uploaded yet (DB.Sync runs more often than
+	// Replica.Sync).
+	if vx.Fault("localAhead") {
+		db.maxLTXFileInfos.m[0] = &ltx.FileInfo{Level: 0, MinTXID: ltx.TXID(n + 1), MaxTXID: ltx.TXID(n + 1)}
+	}
 	before := len(c.files)
 	err := db.EnforceL0RetentionByTime(context.Background())
 	vx.Assert("retention-no-error", err == nil)
